@@ -1,10 +1,11 @@
 import bisect
 import ctypes
 import dis
+import functools
 import gc
 import sys
-from types import FrameType
-from typing import List, Tuple, Type, Generator, Optional
+from types import CodeType, FrameType
+from typing import Dict, List, Tuple, Type, Generator, Optional
 
 assert sys.version_info >= (3, 11)
 
@@ -125,6 +126,17 @@ def assert_frame_cases() -> None:
 assert_frame_cases()
 
 
+@functools.lru_cache(maxsize=512)
+def unconditional_jump_targets(co: CodeType) -> Dict[int, int]:
+    from ._lowlevel import _instructions
+
+    return {
+        insn.offset: insn.argval
+        for insn in _instructions(co)
+        if insn.opname in ("JUMP_BACKWARD", "JUMP_BACKWARD_NO_INTERRUPT", "JUMP_FORWARD")
+    }
+
+
 class InconsistentSnapshot(AssertionError):
     """A consistency check on what we read from a frame failed. These are
     real checks, not debugging aids: when a frame that is running on another
@@ -188,8 +200,23 @@ def inspect_frame(frame: FrameType) -> FrameDetails:
     for _ in range(10):
         lasti_before = frame.f_lasti
         _verif_hook("inspect_frame:lasti", frame)
+        # Where the frame is, as far as the exception table is concerned.
+        # The unconditional jump that closes a 'while' loop (3.12 puts
+        # a copy of the loop's test at the bottom) belongs to no entry of the
+        # table, since it can't raise - yet a frame is seen there whenever
+        # a signal handler, a trace function or another thread looks at
+        # it, for that is where the interpreter attends to such things.
+        # A jump neither enters nor leaves a block, so it is inside every
+        # block that its target is inside (and the other way round: of the
+        # two places, go by the one that the table has more to say about).
+        position = lasti_before
+        jump_target = unconditional_jump_targets(co).get(lasti_before)
+        if jump_target is not None and len(enclosing_handlers(co, jump_target)) > len(
+            enclosing_handlers(co, lasti_before)
+        ):
+            position = jump_target
         for start, end, _, depth, _ in _parse_exception_table(co):
-            if start <= lasti_before <= end:
+            if start <= position <= end:
                 handler_depth = depth
                 break
         else:
@@ -320,7 +347,7 @@ def inspect_frame(frame: FrameType) -> FrameDetails:
             continue
 
         # we got a consistent snapshot
-        lasti = lasti_before
+        lasti = position
         break
     else:
         raise RuntimeError(
@@ -340,8 +367,22 @@ def inspect_frame(frame: FrameType) -> FrameDetails:
     # Figure out the active context managers and finally blocks, by
     # using the exception table to repeatedly simulate raising an exception
     # from the location of the previous handler.
+    for target, depth in enclosing_handlers(co, lasti):
+        details.blocks.append(FrameDetails.FinallyBlock(handler=target, level=depth))
+    # That produced blocks in inside-out order; swap to make outside-in
+    details.blocks.reverse()
+
+    return details
+
+
+def enclosing_handlers(co: CodeType, position: int) -> List[Tuple[int, int]]:
+    """The (handler offset, stack depth) pairs of the exception table entries
+    that enclose *position*, innermost first."""
+    from ._lowlevel import _parse_exception_table
+
+    result = []
     handlers = list(_parse_exception_table(co))
-    current = lasti
+    current = position
     while True:
         # current + 1 is an invalid bytecode offset (the next would be
         # current + 2); but it definitely comes after any handlers
@@ -352,13 +393,8 @@ def inspect_frame(frame: FrameType) -> FrameDetails:
             break
         start, end, target, depth, *_ = handlers[idx - 1]
         if start <= current <= end:
-            details.blocks.append(
-                FrameDetails.FinallyBlock(handler=target, level=depth)
-            )
+            result.append((target, depth))
             current = target
         else:
             break
-    # The above loop produced blocks in inside-out order; swap to make outside-in
-    details.blocks.reverse()
-
-    return details
+    return result
